@@ -181,8 +181,9 @@ func structToMap(data any, onPath map[uintptr]bool) map[string]any {
 		fv := rv.Field(i)
 		fieldValue := fv.Interface()
 
-		// Recursively convert nested structs
-		if fv.Kind() == reflect.Struct || (fv.Kind() == reflect.Ptr && fv.Type().Elem().Kind() == reflect.Struct) {
+		// Recursively convert nested structs (a nil pointer stays nil: there is nothing to convert,
+		// and an empty map would make it look like a value)
+		if fv.Kind() == reflect.Struct || (fv.Kind() == reflect.Ptr && !fv.IsNil() && fv.Type().Elem().Kind() == reflect.Struct) {
 			fieldValue = structToMap(fieldValue, onPath)
 		}
 
@@ -242,7 +243,7 @@ func PopulateStructFields(m map[string]any, data any) {
 		fieldValue := fv.Interface()
 
 		// Convert nested structs to maps so they can be accessed with JSON tag paths
-		if fv.Kind() == reflect.Struct || (fv.Kind() == reflect.Ptr && fv.Type().Elem().Kind() == reflect.Struct) {
+		if fv.Kind() == reflect.Struct || (fv.Kind() == reflect.Ptr && !fv.IsNil() && fv.Type().Elem().Kind() == reflect.Struct) {
 			fieldValue = StructToMap(fieldValue)
 		}
 
